@@ -1056,7 +1056,7 @@ class Ctx:
                 pass                # the callee's contract does not cover this call (e.g. another receiver class): inline it
         # all-native arguments and not the function under verification: concrete folding
         if not any(contains_sym(a) for a in args) and not any(contains_sym(a) for a in kwargs.values()) \
-                and qn not in self.opts.get("no_fold", ()) and not _has_effects(qn):
+                and qn not in self.opts.get("no_fold", ()) and not self.opts.get("no_fold_all") and not _has_effects(qn):
             self.calls.append(("fold", qn))
             try:
                 return lift_native(self, f(*[nativize(a) for a in args], **{k: nativize(v) for k, v in kwargs.items()}))
